@@ -89,6 +89,14 @@ Print Assumptions C11_dispatch_spec.
    handler of 2 waits for 3), queue size 1, one external caller, complete, open, calm *)
 Example C11_instance :
   let c := mkCfg 1 true [(1, [HNested 4]); (2, [HNested 3])] in
-  let s := run_canon 200 c (init [1; 2; 3; 4] 1) in
-  quiescent c s = true /\ closed s = false /\ map fst (log s) = [1; 2; 3; 4] /\ length (loops s) = 3%nat.
-Proof. vm_compute. repeat split; reflexivity. Qed.
+  let s0 := init [1; 2; 3; 4] 1 in
+  let sched := canon_sched 200 c s0 in
+  exists s, run c s0 sched = Some s /\ calm c s0 sched = true /\ length sched = 29%nat /\
+    terminal c s /\ closed s = false /\ map fst (log s) = [1; 2; 3; 4] /\ length (loops s) = 3%nat /\
+    holds (obs_of [1; 2; 3; 4] s true) = true.
+Proof.
+  cbv zeta. eexists. split; [vm_compute; reflexivity|].
+  split; [vm_compute; reflexivity|]. split; [vm_compute; reflexivity|].
+  split; [apply quiescent_terminal; vm_compute; reflexivity|].
+  vm_compute. repeat split; reflexivity.
+Qed.
